@@ -590,7 +590,7 @@ def corrupt(run, rnd):
     return r
 
 
-def fine_part(out, pid, tier, byid, reqs, fine_runs, proj, what, max_leads=40):
+def fine_part(out, pid, tier, byid, reqs, fine_runs, proj, what, max_leads=40, ws=None):
     """Fine-grained recordings (one event per lexgen_util operation, hook H4) against LexUtil.tla.
     A rejected recording or a violated protocol invariant is a LEAD: the harness searches for a
     witness (the consumed prefix followed by every short continuation) on which the observable
@@ -614,6 +614,31 @@ def fine_part(out, pid, tier, byid, reqs, fine_runs, proj, what, max_leads=40):
         if c["i"] in ok:
             raise ToolError("LexUtil.tla accepted a deliberately corrupted fine-grained recording")
     leads = []
+    mach_rej = {}
+    mach_n = 0
+    mtlc = None
+    if ws is not None:
+        # the same recordings against the generated-code machine over the real automaton
+        from pipeline import validate_machine
+        pairs = []
+        have = set()
+        for p_ in {r["p"] for r in fine_runs}:
+            dump = ws.dump(byid[p_].lexer_name())
+            if dump is not None and "renumber" in dump:
+                pairs.append((byid[p_].to_json(), dump))
+                have.add(p_)
+        mruns = [dict(r, script=reqs[r["i"]]["script"]) for r in fine_runs if r["p"] in have]
+        if mruns:
+            mtlc, mok, mach_rej = validate_machine(pid, pairs, mruns, workers=8 if tier == "quick" else 14)
+            mach_n = len(mruns)
+            lost = [r for r in mruns if r["i"] not in mok and r["i"] not in mach_rej]
+            if lost:
+                raise ToolError("Machine.tla neither accepted nor rejected %d recordings" % len(lost))
+    for r in fine_runs:
+        if r["i"] in mach_rej and r["i"] not in rej and ok.get(r["i"]) is None:
+            info = mach_rej[r["i"]]
+            leads.append((r, "event %d (%s) is not what the generated-code machine (Machine.tla, control point %s of state %s) does next" % (
+                info["at"], info["op"], info["pc"], info["q"]), info["consumed"]))
     for r in fine_runs:
         if r["i"] in rej:
             info = rej[r["i"]]
@@ -695,6 +720,12 @@ def fine_part(out, pid, tier, byid, reqs, fine_runs, proj, what, max_leads=40):
     cov["fine_states"] = tlc.distinct
     cov["states"] = cov.get("states", 0) + tlc.distinct
     cov["transitions"] = cov.get("transitions", 0) + tlc.states
+    if mtlc is not None:
+        cov["machine_recordings_validated"] = mach_n
+        cov["machine_recordings_rejected"] = len(mach_rej)
+        cov["machine_states"] = mtlc.distinct
+        cov["states"] += mtlc.distinct
+        cov["transitions"] += mtlc.states
 
 
 def trace_part(out, pid, tier, progs, ws, batches, seed, n_runs, maxlen, proj, what,
@@ -761,7 +792,7 @@ def trace_part(out, pid, tier, progs, ws, batches, seed, n_runs, maxlen, proj, w
                         "first_divergence": first_divergence(pe, pa)},
         })
     if fine_runs:
-        fine_part(out, pid, tier, byid, reqs, fine_runs, proj, what)
+        fine_part(out, pid, tier, byid, reqs, fine_runs, proj, what, ws=ws)
     cov = out.coverage
     cov["random_runs_recorded"] = len(runs)
     cov["random_runs_validated_by_tlc"] = len(tovalidate)
